@@ -526,6 +526,9 @@ func (t *twins) step(faulty bool) *kernel.Violation {
 		return t.opQuery(p, branch, faulty)
 	case 2:
 		pred := GenPred(wl, &p.Spec, p.KeyRange, t.nextU, 1)
+		if wl.Chance(1, 10) {
+			pred = []string{"k >", "k == ", "((d > 1)", "count()"}[wl.Intn(4)] // not a predicate
+		}
 		_, v := t.both("delete-where", fmt.Sprintf("%s@%s %s", p.Name, branch, pred), func(x lakeapi.Interface, _ bool) error {
 			id, err := t.poolID(x, p.Name)
 			if err != nil {
@@ -1258,6 +1261,10 @@ func (t *twins) compareState(full bool) *kernel.Violation {
 					return nil, fmt.Errorf("log of %s@%s: %w", p.Name, b, err)
 				}
 				st = append(st, fmt.Sprintf("%s@%s log: %d commits", p.Name, b, n))
+				// What a vacuum would still remove says whether an earlier
+				// vacuum really removed anything.
+				ids, err := x.Vacuum(t.ctx, p.Name, b, true)
+				st = append(st, fmt.Sprintf("%s@%s vacuumable: %d objects (error: %v)", p.Name, b, len(ids), err != nil))
 			}
 		}
 		return st, nil
